@@ -123,6 +123,9 @@ def model_value(m, v, depth=0, ctx=None):
         return tuple(model_value(m, x, depth, ctx) for x in v.items)
     if isinstance(v, PyList):
         return [model_value(m, x, depth, ctx) for x in v.items]
+    from .tys import VSlice
+    if isinstance(v, VSlice):
+        return {"slice": [model_value(m, v.start, depth, ctx), model_value(m, v.stop, depth, ctx), model_value(m, v.step, depth, ctx)]}
     if not isinstance(v, SV):
         return repr(v)
     if v.ty is TNone:
@@ -200,10 +203,47 @@ class Verifier:
         self.cdb = cdb
         self.tier = tier
 
+    def verify_lemma(self, name: str) -> FuncReport:
+        rep = FuncReport("lemma:" + name)
+        t0 = time.time()
+        modname, node = self.cdb.lemmas[name]
+        rep.location = f"{modname}:{node.lineno}"
+        rep.contract_hash = __import__("hashlib").sha256(ast.dump(node).encode()).hexdigest()[:16]
+        rep.props = []
+        try:
+            it = Evaluator(self.w, self.cdb, [])
+            fr = Frame(modname, pure=True)
+            inputs = {}
+            for a in node.args.args:
+                ty = self.cdb.types.spec_ty(a.annotation, modname)
+                fr.env[a.arg] = it.assume_wf(it.fresh_sv("in_" + a.arg, ty))
+                inputs[a.arg] = fr.env[a.arg]
+            rep.paths = 1
+            rep.canary = it.check(z3.BoolVal(True))
+            for cname, term in self.cdb.eval_clauses_fn(it, node, fr):
+                kind = "property" if cname.startswith("P_") else "supporting"
+                it.oblige(f"lemma:{cname}", term, kind, site=("lemma", cname))
+            for ob in it.obligations:
+                discharge(ob, self.tier)
+                d = {"name": f"lemma:{name}/{ob.name}", "kind": ob.kind, "status": ob.status, "backend": ob.backend, "ms": round(ob.ms, 1), "path": ""}
+                if ob.status == "refuted" and ob.model is not None:
+                    d["inputs"] = {k: model_value(ob.model, v) for k, v in inputs.items()}
+                    d["model_text"] = str(ob.model)[:3000]
+                rep.obligations.append(d)
+            rep.notes = sorted(it.notes)
+        except Unsupported as e:
+            rep.error = f"unsupported: {e}"
+        except Exception as e:
+            rep.error = f"engine error: {type(e).__name__}: {e}\n{traceback.format_exc()[-1500:]}"
+        rep.wall = time.time() - t0
+        return rep
+
     def verify(self, target: str) -> FuncReport:
+        if target.startswith("lemma:"):
+            return self.verify_lemma(target[6:])
         rep = FuncReport(target)
         t0 = time.time()
-        con = self.cdb.contracts[target]
+        con = self.cdb.all_contracts[target]
         rep.props = list(con.props)
         rep.contract_hash = con.text_hash()
         try:
@@ -223,6 +263,7 @@ class Verifier:
         return rep
 
     def lookup(self, target: str):
+        target = target.split("#")[0]
         fi = self.w.lookup_func(target)
         if fi is None:
             raise Unsupported(f"function {target} not found in the sources")
@@ -378,5 +419,5 @@ def verify_targets(files: list[str], targets: Optional[list[str]], tier: str, sr
     world = load_world(src_root)
     cdb = load_contracts(world, files)
     v = Verifier(world, cdb, tier)
-    tg = targets or list(cdb.contracts.keys())
+    tg = targets or list(cdb.all_contracts.keys())
     return [v.verify(t) for t in tg], world, cdb
